@@ -33,7 +33,26 @@ MANIFEST = {
             "of every apply_timestep body on the path simulation -> item, each row paired with the model event that stands for it "
             "(C14_gen_inventory, C14_gen_triggers, C14_gen_tick_bodies; theorems C14_inv_* state the property against that table) "
             "+ differential rig R-health (real Node of every kind in a Simulation, requests and ticks, whole state AND the by-name "
-            "describe_state view diffed after every operation) + an implementation-only oracle for the statement's clauses.",
+            "describe_state view diffed after every operation) + an implementation-only oracle for the statement's clauses. "
+            "What the agent is SHOWN for a folder is in the model too (Model/HealthObs.lean, Props/C14Obs.lean): the refresh flag "
+            "_scanned_this_step is a field of the model's folder, set in-line by the two completing scans, cleared by pre_timestep "
+            "(live folders only, whatever the power state); FolderObservation.observe (flag set -> visible_status, else the cached "
+            "value; absent folder -> 0, cache kept) and the order of PrimaiteGame.step (pre_timestep; requests; apply_timestep; "
+            "observe) are modelled, and C14_obs_faithful proves for EVERY game (any request lists per step, any number of steps, "
+            "deletions and restores of the folder included) that the value the observation reports after each step is the folder's "
+            "visible_health_status of that moment - so the visible-only-by-scan theorems speak about the value the agent really gets; "
+            "C14_flag_iff_scan_completes: after pre_timestep; apply_timestep the flag of a live folder is set iff a scan of it "
+            "completed in that timestep. Tie: C14_gen_folder_observe_truth (the extractor executes observe symbolically for all 32 "
+            "valuations of its Boolean inputs; the table equals the model's observer on probe values - independent of the shape of "
+            "the control flow), C14_gen_folder_observe (the state-dictionary entries it reads), "
+            "C14_gen_pre_chain (pre_timestep path game -> folder, live folders only, unguarded; order of the game step), the flag's "
+            "writers in the inventory paired with model events; the rig runs one REAL FolderObservation per folder name after every "
+            "timestep (one with, one without requires_scan) and diffs flag, reported and cached value (family game-order: every 2-step (thorough 3-step) game over 13 "
+            "request lists x durations, enumerated). The fix timing theorems are lifted over the dynamic operations BY NAME "
+            "(Props/C14DynTime.lean: C14_dyn_fix_not_early / _completes_on_time / _exact and C14_dyn_install_not_early / _request / _exact "
+            "over installs, uninstalls of other items, file-system creation, copies, database restores and tickDb). Finding F-C14-4 "
+            "(fixed): the folder observation showed a deleted namesake's cached health for a newly created folder; the repaired "
+            "observer (cache tied to the folder's uuid) is what the model follows (FolderObs.cachedId).",
     "note": "C14-specific: items are addressed by name. The item set is dynamic (Model/HealthDyn.lean, Props/C14Dyn.lean: "
             "application install/uninstall requests, SoftwareManager.install/uninstall, create folder/file requests, copy_file, "
             "the database restore) - structural operations leave surviving items untouched and new items start unscanned or "
@@ -42,19 +61,25 @@ MANIFEST = {
             "arrived, how healthy?) is observed on the implementation and given to the model as input; the service's GOOD after a "
             "successful Python-API restore is described by the rig as an external write. Where two items of one parent share a name "
             "(created over a deleted one) the by-name restore operations of the model are not the code's first-match semantics: the "
-            "rig ends the comparison of that trace there (counted) and relies on the identity-based implementation oracle. Timing "
-            "theorems are stated for base-operation sequences (not lifted over install/uninstall/tickDb steps). Game layer: "
+            "rig ends the comparison of that trace there (counted) and relies on the identity-based implementation oracle. The fix "
+            "and installation timing theorems are lifted over install/uninstall/tickDb steps by name (round 7: C14_dyn_fix_exact, "
+            "C14_dyn_install_exact from the install REQUEST on); the folder-scan, folder-restore and node-scan timing theorems are still "
+            "stated for base-operation sequences. Game layer: "
             "PrimaiteGymEnv episodes on shipped and generated scenarios are checked by the identity-based oracle, not by the model. "
             "The node's reveal-to-red countdown (top-level `scan` request) is modelled because it shares a block of the timestep with "
             "the whole-node scan: C14_red_scan_independent - whatever stands on it, every operation leaves all health state as it "
             "would otherwise (so both scans completing in one timestep cannot lose the fan-out); rig family `simultaneous`: every "
-            "ordered pair of timed processes completing one timestep apart / together. revealed_to_red, the folders' "
-            "red_scan_countdown and _scanned_this_step are inventoried but not modelled (not C14 observables).",
+            "ordered pair of timed processes completing one timestep apart / together. revealed_to_red and the folders' "
+            "red_scan_countdown are inventoried but not modelled (not C14 observables). FolderObservation is modelled for one folder "
+            "name under unique folder names and base operations (a folder created over a deleted namesake is compared by the rig, "
+            "not covered by C14_obs_faithful); FileObservation / ServiceObservation / ApplicationObservation read visible_status / "
+            "health_state_visible directly (no cache) and are covered by the by-name view theorems.",
     "technique": "Lean 4 theorems over an executable health model; model tied by regenerated tables and a differential rig",
     "design_ref": "5/C14",
 }
 MODULES = ["PrimaiteModel.Lemmas.HealthEff", "PrimaiteModel.Props.C14", "PrimaiteModel.Props.C14Gen", "PrimaiteModel.Props.C14Dyn",
-           "PrimaiteModel.Props.C14Inv", "PrimaiteModel.Props.C14Life"]
+           "PrimaiteModel.Props.C14Inv", "PrimaiteModel.Props.C14Life", "PrimaiteModel.Props.C14Obs",
+           "PrimaiteModel.Props.C14DynTime"]
 EXE = "drv_c14"
 
 
@@ -67,6 +92,7 @@ def _tokens(line: str) -> List[Tuple[str, str]]:
     out = [("resp", resp)]
     try:
         dump, view = dump.split(" V=", 1)
+        view, _, obs = view.partition(" O=")
         p, rest = dump.split(" S=", 1)
         s, f = rest.split(" F=", 1)
     except ValueError:
@@ -80,7 +106,8 @@ def _tokens(line: str) -> List[Tuple[str, str]]:
     for item in f.split():
         head, _, files = item.partition("[")
         parts = head.split(":")
-        for name, tok in zip(("folder-name", "folder-deleted", "folder-actual", "folder-visible", "folder-scanCd", "folder-restoreCd"), parts):
+        for name, tok in zip(("folder-name", "folder-deleted", "folder-actual", "folder-visible", "folder-scanCd", "folder-restoreCd",
+                              "folder-scanned-this-step"), parts):
             out.append((name, parts[0] + "=" + tok))
         for fi in files.rstrip("]").split(","):
             if not fi:
@@ -92,6 +119,10 @@ def _tokens(line: str) -> List[Tuple[str, str]]:
     vsw, _, vfs = view.partition(";")
     out.append(("view-software", vsw))
     out.append(("view-file-system", vfs))
+    # what each FolderObservation reported at the last timestep / has cached
+    for item in obs.split(","):
+        if item:
+            out.append(("folder-observation", item))
     return out
 
 
@@ -245,6 +276,9 @@ def run(ctx: Ctx):
     # deleted items of one name in every deletion order, then a restore by name (enumerated)
     for k, c in enumerate(rig.twin_restore_cases()):
         cases.append((f"twin:{k}", c))
+    # the order of a game step (pre_timestep; requests; apply_timestep; observe): refresh flag and FolderObservation (enumerated)
+    for k, c in enumerate(rig.game_order_cases(ctx.rng.fork("game-order"), depth=ctx.scale(2, 3), nrandom=ctx.scale(200, 1500))):
+        cases.append((f"gord:{k}", c))
     # the fix of a database service whose completion restores the backup inside a timestep (enumerated)
     for k, c in enumerate(rig.db_fix_cases(durs=ctx.scale((0, 1, 3), (0, 1, 2, 3, 5)))):
         cases.append((f"dbfix:{k}", c))
